@@ -1,5 +1,5 @@
 CONSTANTS Majors = {0, 1, 2, 3}
- Minors = {0, 1, 2, 3}
+ Minors = {0, 1, 2, 3, 9, 10, 11}
  Patches = {0, 7}
  SuffixNames = {"none", "pre", "bld", "both"}
 INIT Init
